@@ -48,6 +48,27 @@ E_POOL = {
     "neg-uint": "-(1u) == 1u",
     "bad-regex": "'a'.matches('(')",
     "dup-key": "{1: 1, 1: 2} == {}",
+    # the same CEL-level errors as they arrive from other Python exception classes (OverflowError, UnicodeError, AttributeError, OSError-turned-ValueError ...)
+    "int-of-infinity": "int(1.0 / 0.0) == 1",
+    "int-of-nan": "int(0.0 / 0.0) == 1",
+    "int-of-huge-double": "int(1e300) == 1",
+    "uint-of-negative": "uint(-1) == 1u",
+    "timestamp-out-of-range": "timestamp('9999-12-31T23:59:59Z') + duration('48h') == timestamp('9999-12-31T23:59:59Z')",
+    "timestamp-below-range": "timestamp('0001-01-01T00:00:00Z') - duration('48h') == timestamp('0001-01-01T00:00:00Z')",
+    "duration-out-of-range": "duration('315576000000s') + duration('1s') == duration('0s')",
+    "invalid-utf8": "string(b'\\xff') == ''",
+    "bad-duration": "duration('1x') == duration('1s')",
+    "bad-zone": "timestamp('2009-02-13T23:31:30Z').getHours('Nowhere/Land') == 1",
+    "zone-is-a-directory": "timestamp('2009-02-13T23:31:30Z').getHours('America') == 1",
+    "method-of-wrong-type": "vone.getFullYear() == 1",
+    "index-of-int": "vone[0] == 1",
+    "string-key-in-list": "[1]['a'] == 1",
+    "message-unknown-field": "google.protobuf.Int64Value{valu: 1} == 1",
+    "size-of-int": "size(vone) == 1",
+    "in-non-container": "1 in vone",
+    "unary-minus-min": "-(-9223372036854775807 - 1) == 1",
+    "ternary-bad-condition": "(vone ? true : false)",
+    "no-argument": "dyn() == 1",
 }
 N_POOL = ["1", "'s'", "[]", "null", "1.5", "{}"]
 BINDINGS = {"vt": ct.BoolType(True), "vf": ct.BoolType(False), "vone": ct.IntType(1)}
@@ -255,7 +276,10 @@ def check_macro_lists(run: common.Run, max_len: int, report) -> None:
             bound = ct.ListType([ct.IntType(int(CODES[c][0])) if c != "o" else ct.StringType("a") for c in codes])
             for kind in ("all", "exists"):
                 exp = fold(kind, outs)
-                for src, b in ((f"{lit}.{kind}(i, 4 / i > 1)", {}), (f"l.{kind}(i, 4 / i > 1)", {"l": bound})):
+                # three predicate bodies: the same element codes fail through different Python exception classes
+                # (ZeroDivisionError/TypeError; OverflowError/ValueError; KeyError)
+                bodies = ["4 / i > 1"] if n > 3 else ["4 / i > 1", "int(1.0 / double(i)) > 0", "{1: true, 5: false}[i]"]
+                for src, b in [x for body in bodies for x in ((f"{lit}.{kind}(i, {body})", {}), (f"l.{kind}(i, {body})", {"l": bound}))]:
                     run.tick()
                     if "E" in outs:
                         run.nt(src + str(codes))
